@@ -207,7 +207,7 @@ fn check_obs(v: &mut Verdict, obs: &Obs) -> (Summary, Vec<Vec<(u64, LaneEv)>>) {
             }
         }
         for (ri, rem) in obs.remotes.iter().enumerate() {
-            let o = check_map_lane(v, ri, li, rem, &events, &final_map, !obs.stopped);
+            let o = check_map_lane(v, ri, li, rem, &events, &final_map, !obs.stopped, &obs.quiescent_marks);
             sum.coalesced |= o.coalesced;
             sum.clear_skipped |= o.clear_skipped;
             sum.quiescence_checked |= o.quiescence_checked;
